@@ -7,7 +7,7 @@ From Coq Require Import List ZArith QArith Qabs Bool Lia Lqa.
 Require Import QV.C08.Model QV.C08.Spec QV.C08.Wf QV.C08.Hist QV.C08.Lin QV.C08.ProofsVec QV.C08.ProofsConst QV.C08.ProofsProper
                QV.C08.ProofsTrafo QV.C08.ProofsCtor QV.C08.ProofsPar QV.C08.ProofsFlat QV.C08.ProofsDen QV.C08.ProofsMirror
                QV.C08.ProofsConstT QV.C08.ProofsTotalT QV.C08.ProofsSimple QV.C08.ProofsLin QV.C08.ProofsLinDen QV.C08.ProofsOkb
-               QV.C08.ProofsSubset QV.C08.ProofsRecipe QV.C08.ProofsRecipeT.
+               QV.C08.ProofsSubset QV.C08.ProofsRecipe QV.C08.ProofsRecipeT QV.C08.Guards.
 Import ListNotations.
 Open Scope Q_scope.
 
@@ -110,20 +110,7 @@ Proof.
 Qed.
 
 (* ---- the guard ---- *)
-Fixpoint badT (rv : bool) (w : wf) (c : chan) (tau : Q) {struct w} : bool :=
-  match w with
-  | WTable _ _ | WConst _ _ _ | WFunc _ _ _ => false
-  | WSeq l => bad_list rv tau (map (fun s => (duration s, badT rv s c)) l) 0
-  | WMulti l => (fix find (l : list wf) := match l with
-                   | [] => false
-                   | s :: r => if inb c (channels s) then badT rv s c tau else find r end) l
-  | WRep b n => bad_list rv tau (repeat (duration b, badT rv b c) (Z.to_nat n)) 0
-  | WTrans i T => match t_in T [c] with Some ins => existsb (fun ic => badT rv i ic tau) ins | None => false end
-  | WSubset i _ | WFunctor i _ => badT rv i c tau
-  | WArith l _ r => (inb c (channels l) && badT rv l c tau) || (inb c (channels r) && badT rv r c tau)
-  | WRev i => badT (negb rv) i c (duration i - tau)
-  end.
-
+(* [badT]: moved to Guards.v (round 5) *)
 Definition mirror_okT (rv : bool) (c : chan) (x : wf) : Prop :=
   forall u, rng rv (duration x) u -> badT rv x c u = false ->
   oQeq (sc (nf rv x) c (tm rv (duration x) u)) (sample x c u).
